@@ -63,6 +63,9 @@ def guard(fn, *a, **k):
     except RecursionError as e:
         return Out("host", exc=e)
     except Exception as e:
+        if type(e).__name__ == "ArgumentError" and "RecursionError" in str(e):
+            # the recursion limit was hit inside a z3 ctypes call: same event as RecursionError
+            return Out("host", exc=RecursionError("maximum recursion depth exceeded"))
         return Out("host", exc=e)
 
 
